@@ -162,6 +162,18 @@ class Facts:
     def find(self, pred):
         return [b for b in self.bodies.values() if pred(b)]
 
+    def dropped_helper_bodies(self):
+        """Body objects of the new private helpers that were inlined into their callers (and are therefore not in
+        self.bodies): needed where a rule looks a function up by its role (signature), not by its name"""
+        if getattr(self, "_dropped", None) is None:
+            self._dropped = []
+            for rb in self.raw["bodies"]:
+                if rb["key"] in self.inlined_helpers and rb["key"] not in self.expanded_closures and rb["kind"] in ("Fn", "AssocFn"):
+                    b = Body(self, rb)
+                    b._finish_names()
+                    self._dropped.append(b)
+        return self._dropped
+
     def closures_of(self, body):
         owners = {body.key} | set(body.raw.get("inlined", []))
         return [b for b in self.bodies.values() if b.raw.get("parent") in owners]
@@ -774,6 +786,18 @@ class Body:
                 else:
                     path.append(ps)
             out |= self._through_aggregates(root, tuple(path), _depth, _seen)
+        # `from_residual` only ever builds the failure variant (Err / None): reading its success payload is an
+        # infeasible alternative of a multiply assigned local (the `?` exit of an inlined helper)
+        if any(r[0] == "call" for r, p in out):
+            keep = set()
+            for r, p in out:
+                if r[0] == "call" and p:
+                    t_ = self.blocks[r[1]]["term"]
+                    if (t_.get("f") or {}).get("name") == "from_residual":
+                        if p[:2] == (".branch", " as Continue") or p[0] in (" as Ok", " as Some", ".unwrap"):
+                            continue
+                keep.add((r, p))
+            out = keep
         if not out and _depth == 0:
             return {(("infeasible",), ())}
         return out
